@@ -79,7 +79,28 @@ func GenName(t *rapid.T, label string, maxLen int) string {
 			name = "a"
 		}
 	}
-	return name
+	return sanitizeName(name)
+}
+
+// sanitizeName makes every label start and end with a letter or digit and
+// makes sure the name cannot be mistaken for an IP address literal.
+func sanitizeName(name string) string {
+	b := []byte(name)
+	for i := range b {
+		if b[i] == '-' && (i == 0 || i == len(b)-1 || b[i-1] == '.' || b[i+1] == '.') {
+			b[i] = 'a'
+		}
+	}
+	numeric := true
+	for _, c := range b {
+		if (c < '0' || c > '9') && c != '.' {
+			numeric = false
+		}
+	}
+	if numeric && len(b) > 0 {
+		b[len(b)-1] = 'x'
+	}
+	return string(b)
 }
 
 var greaseTypes = []uint16{0x0a0a, 0x1a1a, 0x2a2a, 0x3a3a, 0x4a4a, 0x5a5a, 0x6a6a, 0x7a7a, 0x8a8a, 0x9a9a, 0xaaaa, 0xbaba, 0xcaca, 0xdada, 0xeaea, 0xfafa}
@@ -535,7 +556,7 @@ func TwoLabels(name string) string {
 		if b[len(b)/2+1] == '-' {
 			b[len(b)/2+1] = 'a'
 		}
-		return string(b)
+		return sanitizeName(string(b))
 	}
 	return name + ".x"
 }
